@@ -56,6 +56,9 @@ type Case struct {
 	Runs      []RunSpec                  `json:"runs"`
 	DumpDAG   bool                       `json:"dump_dag"`
 	DumpSch   bool                       `json:"dump_schema"`
+	// PrepareTwice: the workflow object converted from the YAML text is prepared a second time (by a new executor) and the
+	// second preparation is the one that is inspected and run.
+	PrepareTwice bool `json:"prepare_twice"`
 	// LoggedOutputs: output id -> milliseconds the log target takes to write the "logged output" message of a step
 	// that ended with this output (engine configuration logged_outputs with a slow log target).
 	LoggedOutputs map[string]int `json:"logged_outputs"`
@@ -391,6 +394,18 @@ func runCase(c *Case) *Result {
 		return res
 	}
 	splugin.Log("prepare-return", "", 0, "", nil)
+	if c.PrepareTwice {
+		ex2, err := workflow.NewExecutor(logger, cfg, reg, builtinfunctions.GetFunctions())
+		if err != nil {
+			res.ParseErr = "harness: " + err.Error()
+			return res
+		}
+		prepared, err = ex2.Prepare(wf, files)
+		if err != nil {
+			res.PrepErr, res.PrepType = "second preparation: "+err.Error(), errType(err)
+			return res
+		}
+	}
 	_, res.PrepLeak, _ = settle(settleMS)
 	if c.DumpDAG {
 		res.DAG = dumpDAG(prepared)
